@@ -28,6 +28,9 @@ NodesOk(S, e) == LET N == {e.nodes[i] : i \in 1..Len(e.nodes)} IN
                  /\ Cardinality({i \in 1..Len(e.nodes) : e.nodes[i][1] # 0}) = Cardinality(S)
                  \* (ranked events carry table positions of arbitrary floats, not lattice coordinates: no cell arithmetic)
                  /\ (e.ranked = 0 => \A n \in N : n[1] # 0 => (n[4] <= 1024*n[2] /\ 1024*n[2] <= n[5] /\ n[6] <= 1024*n[3] /\ 1024*n[3] <= n[7]))
+\* a query paused in the middle while another runs from start to finish (C19): the other completes, and both return what
+\* they return alone
+GateOk(e) == e.completed = 1 /\ e.same = 1
 Ok(S, e, S2) ==
    /\ e.k = "qt"
    /\ Len(e.items) = Cardinality(S2)                          \* no pointer listed twice
@@ -44,6 +47,7 @@ Init == l = 1 /\ st = {} /\ bad = {}
 Next == /\ l <= Len(Trace) /\ l' = l + 1
         /\ LET e == Trace[l] IN
            IF e.k = "qt" /\ e.op = "reset" THEN st' = {} /\ bad' = bad
+           ELSE IF e.k = "gate" THEN st' = st /\ bad' = (IF GateOk(e) THEN bad ELSE bad \cup {l})
            ELSE IF e.k # "qt" THEN st' = st /\ bad' = bad \cup {l}
            ELSE LET S2 == ToSet(e.items) IN
                 /\ st' = S2
